@@ -337,6 +337,25 @@ def r5(ctx, cls):
     ctx.ob('C07.R5' if k not in ('pool closed', 'dead connection', 'close above min') else 'C07.R2', rl, '_Release case: %s' % k, bool(v) and all(v),
            'case %s: %s' % (k, v), why if k not in ('pool closed', 'dead connection', 'close above min') else
            '_current_size must drop by exactly one when a pool-owned connection is closed, and the connection must be closed/discarded')
+  # retention bound, over the whole class: wherever a connection is put on the idle shelf, the path there has established
+  # size <= min_watermark (C07-m21: the drain function shelves a healthy connection itself when only timed-out waiters were left)
+  ADD = ('append', 'appendleft', 'extend', 'extendleft', 'insert')
+  n_sites = 0
+  for f in cls.methods.values():
+    if f.name == '__init__':
+      continue
+    if not any(isinstance(c, ast.Call) and isinstance(c.func, ast.Attribute) and c.func.attr in ADD and U(c.func.value) == 'self._cache' for c in ast.walk(f.node)):
+      continue
+    for ev, ex in enum_paths(ctx, f):
+      for i, e in enumerate(ev):
+        if e.kind == 'call' and isinstance(e.node.func, ast.Attribute) and e.node.func.attr in ADD and U(e.node.func.value) == 'self._cache':
+          n_sites += 1
+          ctx.ob('C07.R5', f, 'a connection is shelved only on a path that established size <= min_watermark',
+                 ('self._current_size<=self._min_size', True) in facts(ev, i) or ('self._current_size>self._min_size', False) in facts(ev, i),
+                 '%s reaches %s without having tested self._current_size <= self._min_size: when traffic stops the pool keeps more than min_watermark '
+                 'connections open (e.g. two connections finish while only timed-out waiters remain)' % (f.name, U(e.node)),
+                 'once traffic stops at most min_watermark connections are retained')
+  ctx.floor('C07.R5', 'paths that shelve a connection', n_sites, 1)
   ds = prog.func(WM, 'WatermarkPoolSink._DiscardSink')
   t = U(ds.node).replace(' ', '')
   ctx.ob('C07.R5', ds, '_DiscardSink unsubscribes and closes the connection', '.on_faulted.Unsubscribe(' in t and '%s.Close()' % ds.params[1] in t, '_DiscardSink changed',
